@@ -67,7 +67,7 @@ type Alt struct {
 
 // fork returns a copy of ctx with call bound to the chosen callee alternative.
 func (e *Engine) fork(ctx *Ctx, call ssa.CallInstruction, alt *Alt) *Ctx {
-	n := &Ctx{Parent: ctx.Parent, Call: ctx.Call, Fn: ctx.Fn, Unknown: ctx.Unknown, depth: ctx.depth}
+	n := &Ctx{Parent: ctx.Parent, Call: ctx.Call, Fn: ctx.Fn, Unknown: ctx.Unknown, depth: ctx.depth, branch: ctx.branch}
 	n.choices = map[ssa.CallInstruction]*Alt{}
 	for k, v := range ctx.choices {
 		n.choices[k] = v
@@ -163,6 +163,9 @@ func (e *Engine) GraphOf(fn *ssa.Function, ctx *Ctx) *Graph {
 		if !ok {
 			return true
 		}
+		if v, fixed := ctx.branch[iff]; fixed {
+			return v == (i == 0)
+		}
 		v, known := e.truth(e.Eval(iff.Cond, ctx))
 		if !known {
 			return true
@@ -195,6 +198,24 @@ func (e *Engine) Paths(fn *ssa.Function, ctx *Ctx, mode Mode) []*Alt {
 	e.pathBusy[k] = true
 	defer delete(e.pathBusy, k)
 	g := e.GraphOf(fn, ctx)
+	if iff := e.splitPoint(g, ctx); iff != nil {
+		// a conditional region with a checking loop: one set of alternatives per outcome
+		var alts []*Alt
+		for _, val := range []bool{true, false} {
+			sub := e.withBranch(ctx, iff, val)
+			cond := e.Eval(iff.Cond, ctx)
+			if !val {
+				cond = Not(cond)
+			}
+			for _, a := range e.Paths(fn, sub, mode) {
+				na := *a
+				na.Gates = splitConj(append([]*Gate{{Pred: cond, Pos: condPos(iff), Fn: fn, Ctx: ctx}}, a.Gates...))
+				alts = append(alts, &na)
+			}
+		}
+		e.pathMemo[k] = alts
+		return alts
+	}
 	var alts []*Alt
 	hasErr := false
 	if n := fn.Signature.Results().Len(); n > 0 && isErrorType(fn.Signature.Results().At(n-1).Type()) {
@@ -1398,4 +1419,116 @@ func (e *Engine) resolveDynamicOK(alts []*Alt, depth int) []*Alt {
 		return e.resolveDynamicOK(out, depth+1)
 	}
 	return out
+}
+
+type branchKey struct {
+	ctx *Ctx
+	iff *ssa.If
+	val bool
+}
+
+// withBranch derives the context in which test iff of ctx.Fn has outcome val.
+func (e *Engine) withBranch(ctx *Ctx, iff *ssa.If, val bool) *Ctx {
+	if e.branchCtx == nil {
+		e.branchCtx = map[branchKey]*Ctx{}
+	}
+	k := branchKey{ctx, iff, val}
+	if c := e.branchCtx[k]; c != nil {
+		return c
+	}
+	n := &Ctx{Parent: ctx.Parent, Call: ctx.Call, Fn: ctx.Fn, Unknown: ctx.Unknown, depth: ctx.depth, choices: ctx.choices}
+	n.branch = map[*ssa.If]bool{}
+	for kk, v := range ctx.branch {
+		n.branch[kk] = v
+	}
+	n.branch[iff] = val
+	e.branchCtx[k] = n
+	return n
+}
+
+// splitPoint finds a test of g.Fn, outside any loop and not yet fixed in ctx,
+// that guards a region which (a) is bypassed by the other outcome, (b) contains
+// a loop with a rejecting exit, and (c) rejoins the success paths. Such a
+// region's checks dominate no success return, so they are analysed per outcome.
+func (e *Engine) splitPoint(g *Graph, ctx *Ctx) *ssa.If {
+	fn := g.Fn
+	if len(ctx.branch) >= 4 {
+		return nil
+	}
+	n := len(fn.Blocks)
+	succOK := make([]bool, n) // can reach a non-failing return
+	var work []int
+	for _, b := range fn.Blocks {
+		if !g.Reach[b.Index] {
+			continue
+		}
+		if ret, ok := b.Instrs[len(b.Instrs)-1].(*ssa.Return); ok && !e.RetIsFail(ret) {
+			succOK[b.Index] = true
+			work = append(work, b.Index)
+		}
+	}
+	for len(work) > 0 {
+		v := work[len(work)-1]
+		work = work[:len(work)-1]
+		for _, u := range g.Pred[v] {
+			if !succOK[u] {
+				succOK[u] = true
+				work = append(work, u)
+			}
+		}
+	}
+	for _, b := range fn.Blocks {
+		bi := b.Index
+		if !g.Reach[bi] || g.LoopOf(bi) != nil || len(g.Succ[bi]) != 2 {
+			continue
+		}
+		iff, ok := b.Instrs[len(b.Instrs)-1].(*ssa.If)
+		if !ok || b.Succs[0] == b.Succs[1] {
+			continue
+		}
+		if _, fixed := ctx.branch[iff]; fixed {
+			continue
+		}
+		s0, s1 := b.Succs[0].Index, b.Succs[1].Index
+		if !succOK[s0] || !succOK[s1] {
+			continue
+		}
+		for side := 0; side < 2; side++ {
+			entry := []int{s0, s1}[side]
+			other := []int{s0, s1}[1-side]
+			// the other outcome can reach a success return without entering the region
+			bypass := false
+			seen := map[int]bool{entry: true}
+			st := []int{other}
+			for len(st) > 0 && !bypass {
+				u := st[len(st)-1]
+				st = st[:len(st)-1]
+				if seen[u] {
+					continue
+				}
+				seen[u] = true
+				if ret, ok := fn.Blocks[u].Instrs[len(fn.Blocks[u].Instrs)-1].(*ssa.Return); ok && !e.RetIsFail(ret) {
+					bypass = true
+				}
+				st = append(st, g.Succ[u]...)
+			}
+			if !bypass || other == entry {
+				continue
+			}
+			// the region: blocks dominated by entry
+			for _, l := range g.Loops {
+				if !g.Dominates(entry, l.Head) {
+					continue
+				}
+				for u := range l.Body {
+					for _, v := range g.Succ[u] {
+						if !l.Body[v] && !succOK[v] {
+							return iff
+						}
+					}
+				}
+			}
+		}
+	}
+	return nil
 }
